@@ -266,7 +266,7 @@ func init() {
 		Assumptions:  []string{"values without edge blanks", "a flag entry 'name = false' has no command-line equivalent and is not used"},
 		RequiredHits: []string{"selected-by:ini-name", "selected-by:field", "selected-by:long", "selected-by:short", "no-such-option-or-section", "repeated", "as-defaults"},
 		Bound:        [2]string{"complete product", "complete product"},
-		BudgetS:      [2]int{100, 600},
+		BudgetS:      [2]int{170, 600},
 	})
 }
 
